@@ -15,7 +15,7 @@ Notation run_count := (Vm.run_count ob).
 (* the terminal handling of a HALT: convert the accumulator, wipe the stack *)
 Definition halt_result (s' : vm) : res run_result :=
   match to_cell (acc s') s' with
-  | ROk c s'' => ROk (Done c) (with_stack s'' (repeat VUndef (length (stack s''))) (sp s''))
+  | ROk c s'' => ROk (Done c) (with_stack s'' tempty (sp s''))
   | RErr e m s'' => RErr e m s''
   | RPanic k => RPanic k
   | RNoFuel => RNoFuel
@@ -24,7 +24,7 @@ Definition halt_result (s' : vm) : res run_result :=
 Definition fail_result (e : N) (msg : text) (s' : vm) : res run_result :=
   match stack_trace s' with
   | Ok t =>
-      let s1 := with_stack s' (repeat VUndef (length (stack s'))) 0 in
+      let s1 := with_stack s' tempty 0 in
       ROk (Failed e msg (Some t)) (with_acc (with_ep (with_bp s1 0) USIZE_MAX) VUndef)
   | Err _ => RPanic 51
   | Panic k => RPanic k
@@ -260,8 +260,8 @@ Qed.
 Theorem failed_exit_canonical fuel : forall cyc count s e msg tr s',
   run_loop fuel cyc count s = ROk (Failed e msg tr) s' ->
   sp s' = 0 /\ bp s' = 0 /\ ep s' = USIZE_MAX /\ acc s' = VUndef /\
-  Forall (fun v => v = VUndef) (stack s') /\
-  exists s0, length (stack s') = length (stack s0) /\ hp s' = hp s0 /\ st s' = st s0 /\
+  stack s' = tempty /\
+  exists s0, scap s' = scap s0 /\ hp s' = hp s0 /\ st s' = st s0 /\
              g_bind s' = g_bind s0 /\ g_slots s' = g_slots s0 /\ out_log s' = out_log s0.
 Proof.
   induction fuel as [|f IH]; intros cyc count s e msg tr s' H; [discriminate|].
@@ -271,18 +271,17 @@ Proof.
     eapply IH; eassumption.
   - unfold fail_result in H. destruct (stack_trace s1); try discriminate.
     injection H as <- <- <- <-. cbn. repeat split.
-    + apply Forall_forall. intros v Hin. apply repeat_spec in Hin. exact Hin.
-    + exists s1. rewrite repeat_length. repeat split.
+    exists s1. repeat split.
 Qed.
 
 (* a successful evaluation leaves a wiped stack too *)
 Theorem done_stack_wiped fuel : forall cyc count s c s',
-  run_loop fuel cyc count s = ROk (Done c) s' -> Forall (fun v => v = VUndef) (stack s').
+  run_loop fuel cyc count s = ROk (Done c) s' -> stack s' = tempty.
 Proof.
   induction fuel as [|f IH]; intros cyc count s c s' H; [discriminate|].
   rewrite run_loop_S in H. destruct (run_one s) as [[|] s1|e1 m1 s1| |]; try discriminate.
   - unfold halt_result in H. destruct (to_cell (acc s1) s1) as [c1 s2| | |]; try discriminate.
-    injection H as <- <-. cbn. apply Forall_forall. intros v Hin. apply repeat_spec in Hin. exact Hin.
+    injection H as <- <-. reflexivity.
   - destruct (match count with Some c => cyc + 1 =? c | None => false end); [discriminate|].
     eapply IH; eassumption.
   - unfold fail_result in H. destruct (stack_trace s1); discriminate.
